@@ -17,12 +17,12 @@ const tableLock = "bttest.table.mu"
 type rowSrcKind int
 
 const (
-	srcReader   rowSrcKind = iota // result of Rows.Get (directly or via a helper such as getOrCreateRow)
-	srcCallback                   // parameter of a callback handed to Rows.Ascend*
-	srcFresh                      // freshly allocated row
-	srcParam                      // parameter of a named in-repo function (obligation moves to callers)
-	srcNil                        // the nil constant (an unset variable)
-	srcLoopCarried                // value carried over from the previous loop iteration (φ at a loop header)
+	srcReader      rowSrcKind = iota // result of Rows.Get (directly or via a helper such as getOrCreateRow)
+	srcCallback                      // parameter of a callback handed to Rows.Ascend*
+	srcFresh                         // freshly allocated row
+	srcParam                         // parameter of a named in-repo function (obligation moves to callers)
+	srcNil                           // the nil constant (an unset variable)
+	srcLoopCarried                   // value carried over from the previous loop iteration (φ at a loop header)
 	srcUnknown
 )
 
